@@ -2011,7 +2011,8 @@ class Evaluator:
             return T.opaque('star-args with symbolic value')
         target = self.getattr(recv, name, fr, e)
         if T.tag(target) in ('bound', 'func', 'cls', 'ext') or T.is_op(target, 'WEAKREF') \
-                or (T.tag(target) == 'closure' and T.tag(recv) == 'obj'):
+                or (T.tag(target) == 'closure' and T.tag(recv) == 'obj') \
+                or (T.tag(recv) == 'obj' and T.tag(target) == 'sym' and T.sym_meta(target, 'callable')):
             return self.apply(target, args, kwargs, fr, e)
         # method of a builtin-typed value
         for a in list(args) + list(kwargs.values()):
